@@ -110,6 +110,8 @@ def _sinks(ctx):
     funcs = []
     for q, fi in sorted(prog.funcs.items()):
         if fi.mod.short in ("authentication", "signing", "root_signing", "common", "metadata_construction") and fi.parent is None and fi.cls != "BytesLike":
+            if fi.qualname in eng.private_helpers(fi.mod.short):
+                continue  # analysed in place, as part of every function that uses it
             for b in fx.bindings(fi):
                 funcs.append((fi, b))
     forwarders = {}  # callee string -> param index whose value reaches a sink
